@@ -354,11 +354,27 @@ func execReactorConc(in string) Result {
 				hung = true
 				break
 			}
-			start := make(chan struct{})
+			// released together: both spin on a barrier; the finish is delayed by a few dozen
+			// iterations at random so that its delete lands at different points of the feedback
+			var ready atomic.Int32
+			var sink atomic.Int64
+			delay := sched.Intn(200)
 			fr, br := make(chan string, 1), make(chan string, 1)
-			go func() { <-start; br <- tb.callNow('B', it, id) }()
-			go func() { <-start; fr <- ta.callNow('F', it, id) }()
-			close(start)
+			go func() {
+				ready.Add(1)
+				for ready.Load() < 2 {
+				}
+				br <- tb.callNow('B', it, id)
+			}()
+			go func() {
+				ready.Add(1)
+				for ready.Load() < 2 {
+				}
+				for d := 0; d < delay; d++ {
+					sink.Add(1)
+				}
+				fr <- ta.callNow('F', it, id)
+			}()
 			var fres, bres string
 			for i := 0; i < 2 && !hung; i++ {
 				select {
